@@ -3,6 +3,7 @@ package rel
 import (
 	"context"
 	"fmt"
+	"sync"
 	"reflect"
 
 	"github.com/arr-ai/frozen"
@@ -236,13 +237,20 @@ func (s GenericSet) Map(f func(v Value) (Value, error)) (Set, error) {
 
 // Where returns a new genericSet with all the Values satisfying predicate p.
 func (s GenericSet) Where(p func(v Value) (bool, error)) (_ Set, err error) {
+	// The set library may call the predicate from several goroutines at once.
+	var mu sync.Mutex
 	set := s.set.Where(func(elem Value) bool {
-		if err != nil {
+		mu.Lock()
+		failed := err != nil
+		mu.Unlock()
+		if failed {
 			return false
 		}
 		match, err2 := p(elem)
 		if err2 != nil {
+			mu.Lock()
 			err = err2
+			mu.Unlock()
 			return false
 		}
 		return match
